@@ -159,6 +159,13 @@ def run(ctx):
                 ctx.notes["whole_tool"] = {"files": nf, "stats": " ".join(f[1:])[:600]}
         ctx.cov["evaluations"] += evals
         ctx.notes["search_evaluations"] = evals
+        ctx.notes["hygiene_oracles"] = (
+            "hidden state between calls: the test driver (/repo/cmd/mp4ff-crop/c10_verif_test.go) runs findEndTime / findTrakEnds "
+            "twice on the same boxes (a second answer that differs = failing input second-call-differs) and every second "
+            "endtime / ends / fill / virt case on boxes whose lookup helpers (stts GetDecodeTime/GetDur/GetSampleNrAtTime, stsc "
+            "ChunkNrFromSampleNr/GetChunk/GetContainingChunks, stco/co64 GetOffset, ctts, stss, stsz) were first asked about the "
+            "first, middle and LAST sample, so that a lookup cursor / cache stands at the end of the tables; model and oracles "
+            "expect the fresh-box answers. Aliasing / cap classes: the tool's samples are library-internal (not applicable).")
         for f in fails:
             ctx.failing_input(f[1], f[2], f[3][:6000], f[4])
         ctx.log("search: %d evaluations (table level + %d files through the binary), %d failing inputs (known ones included); %s"
